@@ -229,7 +229,7 @@ def _c13() -> SimEngine:
         perts = [{"op": "flush", "pool": 0}, {"op": "flush", "pool": 0, "re": True}]
         second = {"op": "flush", "pool": 0}
         cases: List[dict] = []
-        for sec in (None, second):
+        for sec in (None, second, {"op": "cancel", "pool": 0, "refs": [["run", 1]], "place": "inline"}, {"op": "cancel", "pool": 0, "refs": [["run", 0]], "place": "inline"}):
             for tail in ([{"op": "tick", "k": 1}, {"op": "cancel", "pool": 0, "refs": [["run", 0]], "place": "inline"}, {"op": "tick", "k": 2}, {"op": "gate", "k": 0, "place": "inline"}],
                          [{"op": "gate", "k": 0, "place": "inline"}, {"op": "tick", "k": 1}, {"op": "cancel", "pool": 0, "refs": [["run", 0]], "place": "inline"}]):
                 c, _ = sweep_space(perts, max_tick=6, places=("inline", "task"), second=sec, tail=tail)
